@@ -45,8 +45,8 @@ def cases(tier):
     terms = gen.corpus(tier, families=FAMS, depth=2, coarse=(True if tier == "thorough" else 2))
     sem = c08.expr_cases(tier)
     if tier != "thorough":
-        terms = terms[:21000] + terms[21000::2]
-        sem = sem[::2]
+        terms = terms[:21000] + terms[21000::3]
+        sem = sem[::3]
     return [["t", e] for e in terms] + [["t", e] for e in sem]
 
 
